@@ -151,6 +151,9 @@ static void myth_setup_worker(int rank) {
   myth_set_current_env(env);
   //Initialize random seed
   myth_random_init(((unsigned)time(NULL)) + rank);
+#ifdef MYTH_VERIF
+  if (myth_verif_worker_fn) myth_verif_worker_fn(rank, &g_myth_random_temp);
+#endif
   //Initialize runqueue
   myth_queue_init(&env->runnable_q);
   myth_queue_clear(&env->runnable_q);
@@ -624,11 +627,13 @@ static void myth_sched_loop(void)
 #endif
     //If there is no runnable thread after I/O checking, try work-stealing
     if (!next_run){
+      MYTH_VERIF_SPIN(MVS_IDLE);
       //next_run=myth_steal_from_others(env);
       next_run=g_myth_steal_func(env->rank);
     }
     if (next_run)
       {
+	MYTH_VERIF_POINT(MVP_SCHED_RUN);
 	//sanity check
 	myth_assert(next_run->status==MYTH_STATUS_READY);
 	env->this_thread=next_run;
